@@ -69,6 +69,7 @@ package uu
 //@   requires spare_capacity_of_dst_does_not_overlap_src: disjointSpare(dst, src)
 //@   ensures source: forall(i, 0 <= i && i < len(src), src[i] == old(src[i]))
 //@   ensures prefix: imp(err == nil, len(res) >= len(dst) && forall(q, 0 <= q && q < len(dst), res[q] == old(dst[q])))
+//@   ensures frame_only_spare_capacity_of_dst_and_fresh_memory_written: writesOnlySpare(dst)
 //@   ensures failure_returns_no_buffer: imp(err != nil, len(res) == 0)
 //@   ensures round_trip: imp(H, err == nil && len(res) == len(dst) + len(x) && forall(q, len(dst) <= q && q < len(dst) + len(x), res[q] == old(x[q - len(dst)])))
 //@   on assign dec(v): if len(v) == 3 { assert(32 <= chunk[0] && chunk[0] <= 95 && 32 <= chunk[1] && chunk[1] <= 95 && 32 <= chunk[2] && chunk[2] <= 95 && 32 <= chunk[3] && chunk[3] <= 95, "only_alphabet_characters_are_decoded"); assert(sext(v[0], v[1], v[2], 0) == chunk[0] - 32 && sext(v[0], v[1], v[2], 1) == chunk[1] - 32 && sext(v[0], v[1], v[2], 2) == chunk[2] - 32 && sext(v[0], v[1], v[2], 3) == chunk[3] - 32, "decoded_bytes_reencode_to_the_four_characters"); assert(chunk[0] - 32 == dsext(old(line[1+4*c])) && chunk[1] - 32 == dsext(old(line[2+4*c])) && chunk[2] - 32 == dsext(old(line[3+4*c])) && chunk[3] - 32 == dsext(old(line[4+4*c])), "group_values_are_the_characters_sextets"); assert(v[0] == old(dbyte(line, 3*c)) && v[1] == old(dbyte(line, 3*c+1)) && v[2] == old(dbyte(line, 3*c+2)), "group_decodes_to_the_lines_specified_bytes"); assert(imp(H && 45*lineN < len(x), old(line[1+4*c]) == old(encByte(x, 62*lineN + 1 + 4*c)) && old(line[2+4*c]) == old(encByte(x, 62*lineN + 2 + 4*c)) && old(line[3+4*c]) == old(encByte(x, 62*lineN + 3 + 4*c)) && old(line[4+4*c]) == old(encByte(x, 62*lineN + 4 + 4*c))), "rt_group_characters_encode_the_blocks_bytes"); assert(imp(H && 45*lineN < len(x), c <= 14 && 1 + 4*c + 3 < 1 + 4*((fill(len(x), lineN)+2)/3) && 3*c < fill(len(x), lineN)), "rt_group_lies_within_the_line"); assert(imp(H && 45*lineN < len(x), old(encByte(x, 62*lineN + 1 + 4*c)) == uuchar(sext(old(xat(x, 45*lineN + 3*c, 45*lineN + fill(len(x), lineN))), old(xat(x, 45*lineN + 3*c + 1, 45*lineN + fill(len(x), lineN))), old(xat(x, 45*lineN + 3*c + 2, 45*lineN + fill(len(x), lineN))), 0))), "rt_char0_is_sextet0"); assert(imp(H && 45*lineN < len(x), old(encByte(x, 62*lineN + 1 + 4*c + 1)) == uuchar(sext(old(xat(x, 45*lineN + 3*c, 45*lineN + fill(len(x), lineN))), old(xat(x, 45*lineN + 3*c + 1, 45*lineN + fill(len(x), lineN))), old(xat(x, 45*lineN + 3*c + 2, 45*lineN + fill(len(x), lineN))), 1))), "rt_char1_is_sextet1"); assert(imp(H && 45*lineN < len(x), old(encByte(x, 62*lineN + 1 + 4*c + 2)) == uuchar(sext(old(xat(x, 45*lineN + 3*c, 45*lineN + fill(len(x), lineN))), old(xat(x, 45*lineN + 3*c + 1, 45*lineN + fill(len(x), lineN))), old(xat(x, 45*lineN + 3*c + 2, 45*lineN + fill(len(x), lineN))), 2))), "rt_char2_is_sextet2"); assert(imp(H && 45*lineN < len(x), old(encByte(x, 62*lineN + 1 + 4*c + 3)) == uuchar(sext(old(xat(x, 45*lineN + 3*c, 45*lineN + fill(len(x), lineN))), old(xat(x, 45*lineN + 3*c + 1, 45*lineN + fill(len(x), lineN))), old(xat(x, 45*lineN + 3*c + 2, 45*lineN + fill(len(x), lineN))), 3))), "rt_char3_is_sextet3"); assert(imp(H && 45*lineN < len(x), v[0] == old(xat(x, 45*lineN + 3*c, 45*lineN + fill(len(x), lineN))) && v[1] == old(xat(x, 45*lineN + 3*c + 1, 45*lineN + fill(len(x), lineN))) && v[2] == old(xat(x, 45*lineN + 3*c + 2, 45*lineN + fill(len(x), lineN)))), "rt_group_decodes_to_the_blocks_bytes"); assert(imp(H && 45*lineN < len(x) && 3*c < nDec, old(dbyte(line, 3*c)) == old(x[45*lineN + 3*c])), "rt_byte0_of_the_group"); assert(imp(H && 45*lineN < len(x) && 3*c + 1 < nDec, old(dbyte(line, 3*c + 1)) == old(x[45*lineN + 3*c + 1])), "rt_byte1_of_the_group"); assert(imp(H && 45*lineN < len(x) && 3*c + 2 < nDec, old(dbyte(line, 3*c + 2)) == old(x[45*lineN + 3*c + 2])), "rt_byte2_of_the_group"); assert(imp(H && 45*lineN < len(x), forall(i, 3*c <= i && i < 3*c + 3 && i < nDec, (i == 3*c || i == 3*c + 1 || i == 3*c + 2) && old(dbyte(line, i)) == old(x[45*lineN+i]), trig(old(dbyte(line, i))))), "rt_group_data_is_the_blocks_bytes") }
@@ -96,6 +97,8 @@ package uu
 //@     apply linePos(lineN, len(ranged("1")[lineN]))
 //@     apply linePos(lineN, 0)
 //@     apply lengthCharRoundTrip(fill(len(x), lineN))
+//@     invariant inplace: fresh(dst) || (sameArray(dst, old(dst)) && offsetIn(dst, old(dst)) == 0 && cap(dst) == cap(old(dst)) && len(dst) >= len(old(dst))) || (cap(old(dst)) == 0 && dst == old(dst))
+//@     invariant frame: writesOnlySpare(dst)
 //@     invariant apart: disjointSpare(dst, src)
 //@     invariant grows: len(dst) >= len(old(dst))
 //@     invariant source_cells: unchanged(src)
@@ -104,6 +107,8 @@ package uu
 //@   loop 1.1 counter c
 //@     invariant off: offset == 1 + 4*c
 //@     invariant rem: nDecRem <= nDec && nDecRem >= 0
+//@     invariant inplace: fresh(dst) || (sameArray(dst, old(dst)) && offsetIn(dst, old(dst)) == 0 && cap(dst) == cap(old(dst)) && len(dst) >= len(old(dst))) || (cap(old(dst)) == 0 && dst == old(dst))
+//@     invariant frame: writesOnlySpare(dst)
 //@     invariant source_cells: unchanged(src)
 //@     invariant apart: disjointSpare(dst, src)
 //@     invariant grows: len(dst) >= len(old(dst))
@@ -123,6 +128,8 @@ package uu
 //@     apply oldmem encDataChar(x, lineN, c, 3)
 //@     apply groupRoundTrip(old(xat(x, 45*lineN + 3*c, 45*lineN + fill(len(x), lineN))), old(xat(x, 45*lineN + 3*c + 1, 45*lineN + fill(len(x), lineN))), old(xat(x, 45*lineN + 3*c + 2, 45*lineN + fill(len(x), lineN))))
 //@   loop 1.1.1 counter z
+//@     invariant inplace: fresh(dst) || (sameArray(dst, old(dst)) && offsetIn(dst, old(dst)) == 0 && cap(dst) == cap(old(dst)) && len(dst) >= len(old(dst))) || (cap(old(dst)) == 0 && dst == old(dst))
+//@     invariant frame: writesOnlySpare(dst)
 //@     invariant own_copy: !sameArray(chunk, src) && !sameArray(chunk, dst) && fresh(chunk)
 //@     invariant source_cells: unchanged(src)
 //@     invariant source: forall(i, 0 <= i && i < len(src), src[i] == old(src[i]))
@@ -145,6 +152,7 @@ package uu
 //@   ensures source: forall(i, 0 <= i && i < len(src), src[i] == old(src[i]))
 //@   ensures encoded_cells: forallCell(res, q, c, imp(q >= len(dst), c == old(encByte(src, q - len(dst)))))
 //@   after "loop 1": assert(forall(p, 0 <= p && p < encLen(len(src)), dst[len(old(dst))+p] == old(encByte(src, p)), trig(old(encByte(src, p)))), "encoded_keyed_by_the_specification")
+//@   ensures frame_only_spare_capacity_of_dst_and_fresh_memory_written: writesOnlySpare(dst)
 //@   ensures nothing_appended_for_empty_input: imp(len(src) == 0, res == dst)
 //@   ensures own_array_when_started_from_nothing: imp(cap(dst) == 0 && len(src) > 0, fresh(res))
 //@   before "dst = append(dst, byte(uuOffset+len(line)))": assert(byte(uuOffset+len(line)) == old(encByte(src, 62*k)), "length_char_is_perls")
@@ -153,6 +161,8 @@ package uu
 //@   before "dst = append(dst, '\\n')": assert(old(encByte(src, 62*k + 1 + 4*j)) == '\n', "newline_is_perls")
 //@   loop 1 counter k
 //@     invariant origin: imp(k == 0, dst == old(dst)) && imp(cap(old(dst)) == 0 && k > 0, fresh(dst))
+//@     invariant inplace: fresh(dst) || (sameArray(dst, old(dst)) && offsetIn(dst, old(dst)) == 0 && cap(dst) == cap(old(dst)) && len(dst) >= len(old(dst))) || (cap(old(dst)) == 0 && dst == old(dst))
+//@     invariant frame: writesOnlySpare(dst)
 //@     invariant consumed: 0 <= k && (k == 0 || 45*(k-1) < len(src))
 //@     invariant length: len(dst) == len(old(dst)) + encLen(min(45*k, len(src)))
 //@     invariant apart: disjointSpare(dst, src)
@@ -163,6 +173,8 @@ package uu
 //@     apply encLenFullLines(k)
 //@   loop 1.1 counter j
 //@     invariant origin: imp(cap(old(dst)) == 0, fresh(dst))
+//@     invariant inplace: fresh(dst) || (sameArray(dst, old(dst)) && offsetIn(dst, old(dst)) == 0 && cap(dst) == cap(old(dst)) && len(dst) >= len(old(dst))) || (cap(old(dst)) == 0 && dst == old(dst))
+//@     invariant frame: writesOnlySpare(dst)
 //@     invariant progress: 0 <= j && 3*j <= len(line) + 2
 //@     invariant length: len(dst) == len(old(dst)) + 62*k + 1 + 4*j
 //@     invariant apart: disjointSpare(dst, src)
